@@ -158,7 +158,7 @@ pub fn record(output: &str) {
     let mut out = Out::create(output);
     let mut r = rng(1212);
     let n_cases = if thorough() { 96 } else { 12 };
-    let pools: Vec<usize> = if thorough() { vec![1, 2, 8, 16] } else { vec![1, 8] };
+    let mut case_no = 0usize;
     let reps = if thorough() { 3 } else { 1 };
     for k in 0..n_cases {
         let obstacle_class = ["free", "blocking", "grazing", "at-stroke-pose", "wrist-flip", "branch-blocking"][k % 6];
@@ -201,7 +201,8 @@ pub fn record(output: &str) {
         let coeffs: Joints = match k % 3 { 0 => DEFAULT_TRANSITION_COSTS, 1 => [3.0, 2.5, 2.5, 0.9, 0.9, 3.5], _ => [2.4, 2.2, 2.2, 1.8, 1.8, 1.6] };
         let mut outcomes: Vec<bool> = Vec::new();
         let mut any_rrt = false;
-        let (pools, reps) = if obstacle_class == "branch-blocking" { (vec![1usize, 2, 4, 16], 2) } else { (pools.clone(), reps) };
+        case_no += 1;
+        let (pools, reps) = if obstacle_class == "branch-blocking" { (pools_for(case_no, 4), 2) } else { (pools_for(case_no, if thorough() { 4 } else { 2 }), reps) };
         for &pool in &pools {
             for rep in 0..reps {
                 let planner = Cartesian {
@@ -216,7 +217,7 @@ pub fn record(output: &str) {
                     debug: false,
                 };
                 verif_hooks::start();
-                let res = guarded(|| rayon::ThreadPoolBuilder::new().num_threads(pool).build().unwrap().install(|| planner.plan(&cell.home, &land, steps.clone(), &park)));
+                let res = guarded(|| in_pool(pool, || planner.plan(&cell.home, &land, steps.clone(), &park)));
                 let hooks = verif_hooks::drain();
                 let mut wins = [0usize; 3];
                 for h in &hooks {
